@@ -127,7 +127,7 @@ def build_body(case, tmpdir):
             f, case['req'], case['full'],
             callbacks=[lambda bytes_transferred: raw.append(hx(bytes_transferred)), agg],
             enable_callbacks=bool(case['en']),
-            close_callbacks=[lambda: raw.append('c'), agg.flush])
+            close_callbacks=[lambda: raw.append('X'), agg.flush])
         return body, raw, sub, (data, case['start'], case['req'], case['full'], case['en'])
     coord = TransferCoordinator(0)
     limiter = BandwidthLimiter(StubBucket()) if case.get('bw') else None
@@ -246,22 +246,61 @@ def chunk_size_of(case):
 
 
 def oracle_chunk(case, tmpdir):
-    """C09 on the implementation alone for a request-shaped script: running sum
-    of what the subscriber saw within [0, size]; = size when the last send was
-    complete and the body was closed."""
-    if case.get('shape') != 'request':
+    """C09 on the implementation alone, for any script inside the theorem's
+    hypotheses (window inside the file, reads of a non-negative amount or
+    read(), every suppressed segment ends at the bounded position it began
+    at -- checked here on the implementation's own tell()): the running sum of
+    what the callbacks / the subscriber saw stays within [0, size], equals
+    min(tell(), size) while reporting is enabled (raw values, direct bodies),
+    and after a complete last send of a request-shaped script followed by
+    close it is exactly size.  Returns None or a description."""
+    f, start, req, full, en = chunk_params(case)
+    size = min(full - start, req)
+    if size < 0 or start < 0 or start + size > len(f) or case['thr'] <= 0:
         return None
-    _, res, vals = run_chunk_case(case, tmpdir)
-    size = chunk_size_of(case)
-    r = prefix_violation(vals, size)
-    if r:
-        return r
-    # complete: bytes returned by the reads after the last enable add up to size
-    ops = case['ops']
-    last_e = max(i for i, t in enumerate(ops) if t == 'E')
-    sent = sum((len(x) - 1) // 2 for t, x in zip(ops[last_e:], res[last_e:]) if t.startswith('R'))
-    if sent >= size and ops[-1] == 'C' and sum(vals) != size:
-        return f'complete send of a {size}-byte body, closed: callbacks {vals} sum to {sum(vals)}'
+    for t in case['ops']:
+        p = t.split(':')
+        if p[0] == 'R' and p[1] != 'N' and unhx(p[1]) < 0:
+            return None
+    body, raw, sub, _ = build_body(case, tmpdir)
+    enabled = bool(en)
+    anchor = 0
+    res = []
+    try:
+        for i, t in enumerate(case['ops']):
+            if t == 'C' and i != len(case['ops']) - 1:
+                return None          # operations after close are outside the statement
+            before = min(body.tell(), size)
+            if t == 'E' and not enabled and before != anchor:
+                return None          # hypothesis suppressed_returns does not hold for this script
+            if t == 'D' and enabled:
+                anchor = before
+            res.append(apply_op(body, t))
+            enabled = True if t == 'E' else False if t == 'D' else enabled
+            seen = case['ops'][:i + 1]
+            r = prefix_violation(sub.vals, size)
+            if r:
+                return f'after {" ".join(seen)}: subscriber {r}'
+            if raw is not None:
+                vals = [unhx(x) for x in raw if x != 'X']
+                r = prefix_violation(vals, size)
+                if r:
+                    return f'after {" ".join(seen)}: raw callbacks {r}'
+                if enabled and t != 'C' and sum(vals) != min(body.tell(), size):
+                    return (f'after {" ".join(seen)}: reporting is enabled, callbacks {vals} sum to {sum(vals)}, '
+                            f'bounded position is {min(body.tell(), size)}')
+    finally:
+        try:
+            body.close()
+        except Exception:
+            pass
+    if case.get('shape') == 'request':
+        ops = case['ops']
+        last_e = max(i for i, t in enumerate(ops) if t == 'E')
+        sent = sum((len(x) - 1) // 2 for t, x in zip(ops[last_e:], res[last_e:]) if t.startswith('R'))
+        vals = sub.vals
+        if sent >= size and ops[-1] == 'C' and sum(vals) != size:
+            return f'complete send of a {size}-byte body, closed: subscriber callbacks {vals} sum to {sum(vals)}'
     return None
 
 
@@ -367,7 +406,7 @@ def file_is_opened_before_close(ops):
 
 
 def chunk_cases(ctx):
-    n_req, n_rand, n_mal = (4000, 4000, 2000) if ctx.thorough() else (900, 900, 450)
+    n_req, n_rand, n_mal = (40000, 40000, 20000) if ctx.thorough() else (2000, 2000, 1000)
     cases = []
     # corpus first
     cdir = os.path.join(common.VERIF, 'corpus', 'chunk')
@@ -418,31 +457,26 @@ def chunk_cases(ctx):
 
 def check_chunks(ctx, tmpdir):
     cases = chunk_cases(ctx)
-    impl_cache = {}
-
     def run_impl(c):
-        out, res, vals = run_chunk_case(c, tmpdir)
-        impl_cache[id(c)] = (res, vals)
-        return out
+        return run_chunk_case(c, tmpdir)[0]
 
     def hist(c, o):
         return {'kind': c['kind'], 'shape': c['shape']}
 
     mism = common.differential(ctx, 'chunk', cases, chunk_model_line, run_impl, hist=hist)
-    # the oracle on every request-shaped case (impl alone)
+    # the oracle (implementation alone) on every case inside the theorem's hypotheses
     for c in cases:
-        if c['shape'] != 'request':
-            continue
-        res, vals = impl_cache[id(c)]
-        size = chunk_size_of(c)
-        r = prefix_violation(vals, size) or oracle_chunk(c, tmpdir)
-        if r:
-            ctx.report(sig('chunk', c), f'upload body ({c["kind"]}, {size} bytes): {r}; script {" ".join(c["ops"])}',
-                       {'kind': 'history', 'component': 'chunk', 'case': c})
-    for (c, i, m) in mism[:20]:
         r = oracle_chunk(c, tmpdir)
         if r:
-            ctx.report(sig('chunk', c), f'upload body ({c["kind"]}): {r}; script {" ".join(c["ops"])}',
+            ctx.report(sig('chunk', c), f'upload body ({c["kind"]}, {chunk_size_of(c)} bytes): {r}',
+                       {'kind': 'history', 'component': 'chunk', 'case': c})
+    reported = {v['signature'] for v in ctx.violations}
+    for (c, i, m) in mism[:20]:
+        if sig('chunk', c) in reported:
+            continue
+        r = oracle_chunk(c, tmpdir)
+        if r:
+            ctx.report(sig('chunk', c), f'upload body ({c["kind"]}): {r}',
                        {'kind': 'history', 'component': 'chunk', 'case': c})
         else:
             ctx.report(f'corr:chunk:{c["kind"]}:{c["shape"]}',
@@ -632,7 +666,7 @@ def gen_get_case(rng, malformed):
 
 
 def check_retry(ctx):
-    n1, n2 = (12000, 4000) if ctx.thorough() else (2600, 900)
+    n1, n2 = (150000, 40000) if ctx.thorough() else (6000, 2000)
     cases = []
     cdir = os.path.join(common.VERIF, 'corpus', 'retry')
     for fn in sorted(os.listdir(cdir)) if os.path.isdir(cdir) else []:
@@ -776,7 +810,7 @@ def e2e_cases(ctx):
     for kind in ('upload-path', 'upload-seekable', 'upload-seekable-offset', 'upload-nonseekable',
                  'download-path', 'download-seekable', 'download-nonseekable', 'copy'):
         for size in sizes:
-            reps = 16 if ctx.thorough() else 4
+            reps = 150 if ctx.thorough() else 8
             for _ in range(reps):
                 chunk = rng.choice([1, 2, 3, 5])
                 thr = rng.choice([1, chunk, chunk + 1, 7, 50])
@@ -903,7 +937,7 @@ def check_e2e(ctx, tmpdir):
                   mode='multipart' if multipart else 'single', ok=r['ok'],
                   rewinds=any(v < 0 for v in r['vals']),
                   resent=any('S:0:0 D' in ' '.join(b.ops) for b in r['bodies']))
-        if any(v < 0 for v in r['vals']) and multipart:
+        if any(v < 0 for v in r['vals']) and multipart and not c.get('threads'):
             ctx.sample({'component': 'e2e', 'case': c, 'requests': r['requests'][:12],
                         'bytes_transferred': r['vals'][:24]})
         v = exact_violation(r['vals'], r['size']) if r['ok'] else prefix_violation(r['vals'], r['size'])
@@ -916,32 +950,45 @@ def check_e2e(ctx, tmpdir):
                        f'bounded faults were scripted: {r["exc"]}',
                        {'kind': 'input', 'component': 'e2e', 'case': c}, no_input=True)
             continue
-        # uploads: every body's recorded script is a word of the Request language and the
-        # model run on it predicts what the subscriber saw
-        if c['kind'].startswith('upload') and not c.get('threads'):
+        # uploads: every body's recorded script satisfies the theorem's hypotheses (decided by the
+        # extracted hyp_ok), is a word of the Request language, and the model run on it predicts
+        # what the subscriber saw
+        if c['kind'].startswith('upload'):
             pred_lines = []
             for b in r['bodies']:
+                start, csize, full = b.params
+                thr = c['aggthr'] if c['aggthr'] is not None else 256 * 1024
+                zeros = '00' * max(full, 0)
+                lines.append(' '.join(['hyp', zeros or '-', hx(start), hx(csize), hx(full), '0'] + b.ops))
+                expect.append(('hyp', b.ops, c))
                 atts = parse_request(b.ops)
                 if atts is None:
                     ctx.report('corr:e2e:script-language',
                                f'the operations a body received during a successful {c["kind"]} are not of the form '
                                f'Sign.Send.(seek0.Sign.Send)*.close: {" ".join(b.ops)}',
                                {'kind': 'correspondence', 'theorem_or_correspondence':
-                                'hypothesis of chunk_reported_eq_bounded_pos (Request script language) vs the request life cycle',
+                                'Request script language (Progress.request_ops) vs the request life cycle',
                                 'component': 'e2e', 'case': c, 'ops': b.ops}, no_input=True)
                     break
-                start, csize, full = b.params
-                thr = c['aggthr'] if c['aggthr'] is not None else 256 * 1024
                 lines.append('reqops ' + ' '.join(atts))
                 expect.append(('script', normalise_script(b.ops), c))
-                zeros = '00' * max(full, 0)
                 lines.append(' '.join(['runq', zeros or '-', hx(start), hx(csize), hx(full), '0', hx(thr)] + b.ops))
                 expect.append(('values-part', None, c))
                 pred_lines.append(len(lines) - 1)
-            owners.append((c, pred_lines, r['vals']))
+            if not c.get('threads'):
+                owners.append((c, pred_lines, r['vals']))
     if lines:
         outs = common.run_model('chunk', lines)
         for (kind, want, c), o in zip(expect, outs):
+            if kind == 'hyp':
+                ctx.count('e2e-body-hypotheses-decided', 1, nontrivial_key=' '.join(want) + json.dumps(c, sort_keys=True))
+                if o != '1':
+                    ctx.report('corr:e2e:hypothesis',
+                               f'a body of a successful {c["kind"]} received {" ".join(want)}: the hypotheses of '
+                               f'chunk_reported_checked (well-formed reads, suppressed segments return) do not hold',
+                               {'kind': 'correspondence', 'theorem_or_correspondence':
+                                'hypotheses of chunk_reported_checked vs the request life cycle',
+                                'component': 'e2e', 'case': c, 'ops': want}, no_input=True)
             if kind == 'script':
                 w = o.split()
                 if w[0] != 'valid' or normalise_script(w[1:]) != want:
@@ -992,7 +1039,7 @@ def check_lifecycle(ctx):
 
     from s3transfer import utils
     lines, wants = [], []
-    for _ in range(300 if ctx.thorough() else 80):
+    for _ in range(5000 if ctx.thorough() else 200):
         c = FakeS3()
         c.meta.events.register_first('request-created.s3', utils.signal_not_transferring, unique_id='a')
         c.meta.events.register_last('request-created.s3', utils.signal_transferring, unique_id='b')
@@ -1022,6 +1069,167 @@ def check_lifecycle(ctx):
                        no_input=True)
 
 
+# ============================== (d) the real botocore request life cycle
+
+_XML = {
+    'CreateMultipartUpload': (200, {}, b'<?xml version="1.0" encoding="UTF-8"?><InitiateMultipartUploadResult '
+                              b'xmlns="http://s3.amazonaws.com/doc/2006-03-01/"><Bucket>b</Bucket><Key>k</Key>'
+                              b'<UploadId>uid</UploadId></InitiateMultipartUploadResult>'),
+    'CompleteMultipartUpload': (200, {}, b'<?xml version="1.0" encoding="UTF-8"?><CompleteMultipartUploadResult '
+                                b'xmlns="http://s3.amazonaws.com/doc/2006-03-01/"><Bucket>b</Bucket><Key>k</Key>'
+                                b'<ETag>"e"</ETag></CompleteMultipartUploadResult>'),
+    'AbortMultipartUpload': (204, {}, b''),
+    'PutObject': (200, {'ETag': '"e"'}, b''),
+    'UploadPart': (200, {'ETag': '"e"'}, b''),
+}
+
+
+class _Raw:
+    def __init__(self, b):
+        self.b = b
+
+    def stream(self, **kw):
+        yield self.b
+
+    def read(self, *a):
+        return self.b
+
+
+def check_botocore(ctx, tmpdir):
+    """The hypothesis about the request life cycle, against botocore itself: a
+    real botocore S3 client (signing, checksums, retry handler, reset_stream)
+    whose HTTP layer is replaced by a before-send handler that reads the body
+    as an HTTP client does and answers 500 a scripted number of times."""
+    import unittest.mock
+    import botocore.session
+    from botocore.config import Config
+    from botocore.awsrequest import AWSResponse
+    from s3transfer.manager import TransferManager, TransferConfig
+    from s3transfer.futures import NonThreadedExecutor
+    from s3transfer import utils
+    from harness.fakes3 import NonSeekableReader
+    from harness.props.c14 import scaled_adjuster
+    rng = ctx.rng('botocore')
+    session = botocore.session.get_session()
+    script = {}
+
+    def before_send(request, event_name=None, **kw):
+        op = event_name.split('.')[-1]
+        body = request.body
+        st = script.setdefault('calls', {})
+        key = (op, request.url)
+        k = st.get(key, 0)
+        st[key] = k + 1
+        fail = op in ('PutObject', 'UploadPart') and k < script['fails'].get(key, script['default_fails'])
+        if hasattr(body, 'read'):
+            n = 0
+            while True:
+                d = body.read(script['blocksize'])
+                if not d:
+                    break
+                n += len(d)
+                if fail and n >= script['fail_after']:
+                    break
+        if fail:
+            return AWSResponse(request.url, 500, {}, _Raw(b'<Error><Code>InternalError</Code><Message>x</Message></Error>'))
+        status, headers, content = _XML[op]
+        return AWSResponse(request.url, status, headers, _Raw(content))
+
+    clients = []
+    for scheme in ('http', 'https'):
+        for calc in ('when_required', 'when_supported'):
+            c = session.create_client(
+                's3', region_name='us-east-1', endpoint_url=scheme + '://localhost:9',
+                aws_access_key_id='a', aws_secret_access_key='b',
+                config=Config(retries={'max_attempts': 4, 'mode': 'standard'},
+                              request_checksum_calculation=calc))
+            c.meta.events.register('before-send.s3', before_send)
+            clients.append((scheme + '/' + calc, c))
+    n = 3000 if ctx.thorough() else 64
+    lines, expect = [], []
+    with unittest.mock.patch('time.sleep', lambda x: None):
+        for i in range(n):
+            name, client = clients[i % len(clients)]
+            size = rng.choice([0, 1, 2, 5, 9, 14, 23])
+            case = {'client': name, 'size': size, 'chunk': rng.choice([2, 3, 5]), 'mpthr': rng.choice([1, 4, 50]),
+                    'aggthr': rng.choice([None, 1, 3, 5]), 'source': rng.choice(['path', 'seekable', 'offset', 'nonseekable']),
+                    'fails': rng.randrange(0, 3), 'fail_after': rng.randrange(0, size + 3),
+                    'blocksize': rng.choice([1, 4, 8192])}
+            script.clear()
+            script.update(fails={}, default_fails=case['fails'], fail_after=case['fail_after'],
+                          blocksize=case['blocksize'])
+            data = bytes(rng.randrange(256) for _ in range(size + 4))
+            payload = data[:size]
+            if case['source'] == 'path':
+                src = os.path.join(tmpdir, 'bc-src')
+                with open(src, 'wb') as fh:
+                    fh.write(payload)
+            elif case['source'] == 'seekable':
+                src = io.BytesIO(payload)
+            elif case['source'] == 'offset':
+                src = io.BytesIO(data[size:] + payload)
+                src.seek(4)
+            else:
+                src = NonSeekableReader(payload, [3, 1, 2])
+            sub, log = Rec(), []
+            cfg = TransferConfig(multipart_threshold=case['mpthr'], multipart_chunksize=case['chunk'])
+            err = None
+            try:
+                with ScaledAggregator(case['aggthr']), scaled_adjuster(utils, 2, 9, 4):
+                    with TransferManager(client, cfg, osutil=recording_osutils(log),
+                                         executor_cls=NonThreadedExecutor) as m:
+                        m.upload(src, 'b', 'k', subscribers=[sub]).result()
+            except Exception as e:
+                err = type(e).__name__ + ': ' + str(e)[:160]
+            scripts = [' '.join(b.ops) for b in log]
+            ctx.count('botocore-lifecycle', 1, nontrivial_key=json.dumps(case, sort_keys=True),
+                      client=name, bodies=min(len(log), 3), ok=err is None)
+            ctx.sample({'component': 'botocore-lifecycle', 'case': case, 'body_scripts': scripts[:3],
+                        'bytes_transferred': sub.vals[:16]})
+            if err is not None:
+                ctx.report(sig('botocore-failed', case), f'upload through the real botocore client failed: {err}',
+                           {'kind': 'harness', 'component': 'botocore', 'case': case}, no_input=True)
+                continue
+            v = exact_violation(sub.vals, size)
+            if v:
+                ctx.report(sig('botocore', case), f'upload of {size} bytes through the real botocore client ({name}): {v}; '
+                           f'body scripts {scripts}',
+                           {'kind': 'input', 'component': 'botocore', 'case': case})
+                continue
+            thr = case['aggthr'] if case['aggthr'] is not None else 256 * 1024
+            idx = []
+            for b in log:
+                start, csize, full = b.params
+                zeros = '00' * max(full, 0)
+                lines.append(' '.join(['hyp', zeros or '-', hx(start), hx(csize), hx(full), '0'] + b.ops))
+                expect.append(('hyp', case, ' '.join(b.ops)))
+                lines.append(' '.join(['runq', zeros or '-', hx(start), hx(csize), hx(full), '0', hx(thr)] + b.ops))
+                idx.append(len(lines) - 1)
+                expect.append(('vals', case, None))
+            expect.append(('owner', case, (idx, list(sub.vals))))
+    outs = common.run_model('chunk', lines) if lines else []
+    it = iter(outs)
+    for kind, case, extra in expect:
+        if kind == 'owner':
+            idx, vals = extra
+            pred = []
+            for i in idx:
+                pred += [unhx(x) for x in outs[i].split(' | ')[2].split(',') if x]
+            if pred != vals:
+                ctx.report('corr:botocore:upload-values',
+                           f'upload through botocore ({case}): subscriber saw {vals}, the model predicts {pred}',
+                           {'kind': 'correspondence', 'theorem_or_correspondence': 'Chunk.v/Progress.v replay of body scripts recorded under botocore',
+                            'case': case, 'impl': vals, 'model': pred}, no_input=True)
+            continue
+        o = next(it)
+        if kind == 'hyp' and o != '1':
+            ctx.report('corr:botocore:hypothesis',
+                       f'botocore ({case["client"]}) drove an upload body with {extra}: the hypotheses of '
+                       f'chunk_reported_checked do not hold for this script',
+                       {'kind': 'correspondence', 'theorem_or_correspondence': 'hypotheses of chunk_reported_checked vs botocore',
+                        'case': case, 'ops': extra}, no_input=True)
+
+
 # ======================================================================= run
 
 def run(ctx):
@@ -1037,6 +1245,9 @@ def run(ctx):
         'read(); io_chunksize >= 1 (TransferConfig rejects <= 0)',
         'the sizes of the parts of an upload add up to the transfer size (C01/C14: proved here for the plan of a known-size '
         'upload, a ranged download and a copy)',
+        'botocore\'s HTTP layer is replaced by a before-send handler that reads the body in blocks until exhaustion or a '
+        'scripted cut and answers 500/200; everything above it (signers, checksum handlers, retry handler, reset_stream) is the '
+        'installed botocore',
         'the extracted OCaml models and their line drivers are trusted for the correspondence only',
     ]
     ctx.cov['rule'] = (
@@ -1056,6 +1267,7 @@ def run(ctx):
             check_retry(ctx)
             check_lifecycle(ctx)
             check_e2e(ctx, tmpdir)
+            check_botocore(ctx, tmpdir)
         if ctx.broken is not None:
             search_after_break(ctx, tmpdir)
     finally:
@@ -1090,8 +1302,11 @@ def search_after_break(ctx, tmpdir):
         ops.append('C')
         sh['ops'] = ops
         r = oracle_chunk(sh, tmpdir)
+        if not r:
+            sh = dict(sh, shape='random', ops=gen_random_ops(rng, size, False, sh['kind'] not in ('path-put', 'path-part')))
+            r = oracle_chunk(sh, tmpdir)
         if r:
-            ctx.report(sig('chunk', sh), f'upload body ({sh["kind"]}): {r}; script {" ".join(ops)}',
+            ctx.report(sig('chunk', sh), f'upload body ({sh["kind"]}): {r}',
                        {'kind': 'history', 'component': 'chunk', 'case': sh, 'broken': ctx.broken.what})
             found = True
             break
